@@ -26,6 +26,7 @@ CONST = """CONSTANTS
   RetGetters <- %(getters)s
   LateExpect = %(late)s
   Toggles = %(toggles)s
+  Flags = %(flags)s
   MaxInst = %(maxinst)d
   DKeys <- %(dkeys)s
   DVals <- %(dvals)s
@@ -48,6 +49,7 @@ TRACE_CONST = """CONSTANTS
   RetGetters = {}
   LateExpect = TRUE
   Toggles = TRUE
+  Flags = TRUE
   MaxInst = 0
   DKeys = {}
   DVals = {}
@@ -56,7 +58,7 @@ TRACE_CONST = """CONSTANTS
 
 def consts(**kw):
     d = dict(scopes="ScopesG", fns='"f", "g"', pnames='"p"', vals="Vals2", onames="", odata="NoData", objs="", rets="Rets1",
-             maxexp=2, ns="0, 1, 2", maxcalls=3, getters="GetValue", late="FALSE", toggles="FALSE", maxinst=0, dkeys="NoKeys", dvals="NoData")
+             maxexp=2, ns="0, 1, 2", maxcalls=3, getters="GetValue", late="FALSE", toggles="FALSE", flags="TRUE", maxinst=0, dkeys="NoKeys", dvals="NoData")
     d.update(kw)
     return CONST % d
 
